@@ -25,6 +25,7 @@ type Report struct {
 	known     []knownFinding
 	updBase   bool
 	engineErr []string
+	canaries  int // false lemmas that (correctly) could not be proved
 	partial   bool // only a subset of functions was generated (-only): vanished obligations are not reported
 }
 
@@ -197,6 +198,20 @@ func (r *Report) emit(verif string, writeEvidence, verbose bool) int {
 	for _, se := range r.eng.specErrs {
 		fmt.Println("SPEC-ERROR:", se)
 	}
+	// canary lemmas state something false: they must NOT be provable.  A proved canary means the
+	// specification prelude (its axioms) is inconsistent and every proof of this run is worthless.
+	var kept []*SolveResult
+	for _, res := range r.results {
+		if strings.HasPrefix(res.Obl.Name, "lemma:canary_") {
+			r.canaries++
+			if res.Status == "unsat" {
+				r.engineErr = append(r.engineErr, "canary "+res.Obl.Name+" was proved: the specification prelude is inconsistent")
+			}
+			continue
+		}
+		kept = append(kept, res)
+	}
+	r.results = kept
 	// baseline update
 	if r.updBase {
 		// drop entries of the selected properties, then add what discharged now
@@ -233,7 +248,11 @@ func (r *Report) emit(verif string, writeEvidence, verbose bool) int {
 		for _, rs := range byFunc {
 			sort.Slice(rs, func(i, j int) bool { return rs[i].Obl.Seq < rs[j].Obl.Seq })
 			for _, res := range rs {
-				if !(res.Status == "unsat" && res.MaxS < 20.0) {
+				limit := 20.0
+				if res.Obl.Kind == "lemma" {
+					limit = 80.0 // lemmas run with a 240 s limit: the same safety factor of three
+				}
+				if !(res.Status == "unsat" && res.MaxS < limit) {
 					fmt.Printf("baseline: %s stops at %s (%s, %.1fs)\n", shortKey(res.Obl.Func), shortKey(res.Obl.Name), res.Status, res.MaxS)
 					break
 				}
